@@ -5,6 +5,7 @@ CONSTANTS
  Honest <- H3
  FixF3 = TRUE
  FixF4 = TRUE
+ FixF15 = TRUE
  Prog <- P_none3
  UseDFrom <- None
  DFromWho <- AllParties
@@ -13,7 +14,7 @@ CONSTANTS
  InitChan <- Empty
  InitFifo = TRUE
  GenDepth = 0
-INVARIANTS Agreement NoDuplicate Integrity QValidity QTotality
+INVARIANTS Agreement NoDuplicate Integrity QValidity QTotality KnownIsAccepted
 PROPERTIES DeliveryStepP 
 CHECK_DEADLOCK FALSE
 VIEW View
